@@ -1,6 +1,7 @@
 package sim
 
 import (
+	"encoding/json"
 	"runtime/debug"
 
 	"k8s.io/apimachinery/pkg/api/meta"
@@ -32,3 +33,6 @@ func metaGVK(g schema.GroupVersionKind) metav1.GroupVersionKind {
 func metaGVR(g schema.GroupVersionResource) metav1.GroupVersionResource {
 	return metav1.GroupVersionResource{Group: g.Group, Version: g.Version, Resource: g.Resource}
 }
+
+func jsonMarshal(v any) ([]byte, error)   { return json.Marshal(v) }
+func jsonUnmarshal(d []byte, v any) error { return json.Unmarshal(d, v) }
